@@ -1,5 +1,6 @@
 import Qryn.ReadSide.Params
 import Qryn.Gen.ReadSide
+import Qryn.ReadSide.PipelineHExec
 namespace Driver.C12
 open Qryn.ReadSide Qryn.Gen
 
@@ -24,7 +25,16 @@ def showSeries (out : List (Nat × List (Int × Int))) : String :=
 
 def code : Code := ⟨FixCode.fixed, AggCode.fixed, ReadSide.maxFixPeriodPoints, ReadSide.aggStreamCap⟩
 
+def batch? (s : String) : Option (Nat × Bool) :=
+  if s.endsWith "e" then (s.dropRight 1).toNat?.map (·, true) else s.toNat?.map (·, false)
+
+def onStop? (s : String) : Option Pipe.OnStop :=
+  if s = "d" then some .drain else if s = "c" then some .cancel else if s = "a" then some .abandon else none
+
 def handle : List String → Option String
+  | ["c12hstop", pol, k, bs] => do
+    let r := Pipe.exporterRun (← list? batch? bs) (← onStop? pol) (← k.toNat?)
+    some (r.1 ++ " " ++ toString r.2)
   | ["c12fix", f, t, st, d, es] => do
     let p : FixParams := ⟨← f.toInt?, ← t.toInt?, ← st.toInt?, ← d.toInt?⟩
     let es ← list? entry? es
